@@ -250,6 +250,9 @@ pub fn verif_map<I: Iterator, U, F: FnMut(I::Item) -> U>(it: I, f: F) -> (r: ::c
     ensures r.obeys_prophetic_iter_laws(), r.remaining().len() == it.remaining().len(),
         forall |k: int| 0 <= k < it.remaining().len() ==> f.ensures((it.remaining()[k],), #[trigger] r.remaining()[k]),
 { it.map(f) }
+/// R16: the additive identity from which `Sum<f64>` folds (0.0 or -0.0 depending on the std version): an uninterpreted constant
+pub uninterp spec fn f64_sum_init_s() -> f64;
+#[verifier::external_body] pub fn f64_sum_init() -> (r: f64) ensures r == f64_sum_init_s() { ::core::iter::empty::<f64>().sum() }
 /// `it.map(f).product::<f64>()`: an uninterpreted function of the sequence of factors
 pub uninterp spec fn f64_prod_s(v: Seq<f64>) -> f64;
 #[verifier::external_body]
